@@ -263,6 +263,9 @@ def run_job(job, prop_id, workroot, tier):
         timeout = job.get("timeout_thorough", timeout * 2)
     mem = job.get("mem_gb", 12)
 
+    if job.get("mode") == "native":
+        return run_native_job(job, res, wd, defines, timeout, t_start)
+
     # 1. compile
     cmd = ["goto-cc"] + include_flags() + defines + ["-DVF_CBMC", "--function", entry, harness, "-o", "a.gb"]
     res.cmds.append(" ".join(cmd))
@@ -402,6 +405,47 @@ def run_job(job, prop_id, workroot, tier):
         return res
     if not real:
         res.reason = "VACUOUS: no obligations generated"
+        return res
+    res.status = "ok"
+    return res
+
+
+def run_native_job(job, res, wd, defines, timeout, t_start):
+    """Exhaustive native enumeration of a finite input space against the real code
+    (labelled exhaustive_native in the evidence; NOT a deductive obligation)."""
+    harness = os.path.join(VERIF, job["harness"])
+    exe = os.path.join(wd, "native.exe")
+    cmd = ["gcc", "-O2", "-w", "-fopenmp", "-DVF_NATIVE"] + include_flags() + defines + [harness, "-o", exe] + job.get("replay_ldflags", [])
+    res.cmds.append(" ".join(cmd))
+    r = run(cmd, wd, 300)
+    if r["rc"] != 0:
+        res.reason = "native build failed: " + r["err"][-1500:]
+        res.total_s = time.time() - t_start
+        return res
+    r = run([exe], wd, timeout)
+    res.solver_s = r["s"]
+    res.total_s = time.time() - t_start
+    res.cmds.append(exe)
+    out = r["out"]
+    m = re.search(r"CASES (\d+)", out)
+    cases = int(m.group(1)) if m else 0
+    res.native_cases = cases
+    if r["rc"] == "timeout":
+        res.reason = "native enumeration timeout after %ds" % timeout
+        return res
+    ent = {"name": job["name"] + ".exhaustive_native", "desc": "exhaustive native enumeration: %d cases; %s" % (cases, job.get("bound", "")),
+           "status": "SUCCESS" if (r["rc"] == 0 and cases > 0) else "FAILURE", "kind": "exhaustive_native",
+           "file": job["harness"], "line": "0", "function": "main", "trace": None}
+    res.props.append(ent)
+    if r["rc"] != 0:
+        ent["native_output"] = (out + r["err"])[-2000:]
+        res.failed = [ent]
+        res.status = "violation"
+        res.native_fail_text = (out + r["err"])[-3000:]
+        return res
+    if cases == 0:
+        res.reason = "VACUOUS: native enumeration reported no cases"
+        res.status = "undecided"
         return res
     res.status = "ok"
     return res
@@ -550,7 +594,7 @@ def main():
                     r.status, r.reason = "undecided", "job not in ledger (run --update-ledger on the pinned tree)"
                 else:
                     kc = kinds_count(r.props)
-                    for k in ("postcondition", "loop_invariant_step", "loop_invariant_base", "assertion", "canary"):
+                    for k in ("postcondition", "loop_invariant_step", "loop_invariant_base", "assertion", "canary", "exhaustive_native"):
                         if kc.get(k, 0) < led["kinds"].get(k, 0):
                             r.status = "undecided"
                             r.reason = "VACUITY: %d %s obligations, ledger has %d (contract silently dropped?)" % (
@@ -587,7 +631,9 @@ def main():
                     rp = os.path.join(VERIF, "replays", "%s-%s.txt" % (prop_id, re.sub(r"[^A-Za-z0-9_.-]", "_", r.name)))
                     wd = os.path.join(workroot, re.sub(r"[^A-Za-z0-9_.-]", "_", r.name))
                     reproduced, text, rcmd = (False, "native replay not available for this job", "")
-                    if r.job.get("replay", True):
+                    if r.job.get("mode") == "native":
+                        reproduced, text, rcmd = True, getattr(r, "native_fail_text", ""), " ; ".join(r.cmds)
+                    elif r.job.get("replay", True):
                         p0 = unknown_fail[0]
                         _, raw0 = trace_inputs(p0["trace"])
                         reproduced, text, rcmd = native_replay(r.job, r, raw0 or raw, wd)
@@ -618,6 +664,7 @@ def main():
                 undecided.append(r)
                 exit_code = max(exit_code, 2) if exit_code != 1 else 1
 
+        exit_code = 1 if violations else (2 if undecided else 0)
         for l in known_lines:
             print(l)
         for r in undecided:
@@ -641,8 +688,8 @@ def main():
         wall = time.time() - t0
         if not args.no_evidence and not args.only:
             write_evidence(prop_id, reg, results, args.tier, seed, wall, violations, known_lines, undecided)
-        n_ob = sum(len([p for p in r.props if p["kind"] != "canary"]) for r in results)
-        n_ok = sum(len([p for p in r.props if p["kind"] != "canary" and p["status"] == "SUCCESS"]) for r in results)
+        n_ob = sum(len([p for p in r.props if p["kind"] not in ("canary", "exhaustive_native")]) for r in results)
+        n_ok = sum(len([p for p in r.props if p["kind"] not in ("canary", "exhaustive_native") and p["status"] == "SUCCESS"]) for r in results)
         print("%s tier=%s jobs=%d obligations=%d discharged=%d violations=%d known=%d undecided=%d wall=%.0fs" % (
             prop_id, args.tier, len(results), n_ob, n_ok, violations, len(known_lines), len(undecided), wall))
         return exit_code
@@ -665,10 +712,15 @@ def write_evidence(prop_id, reg, results, tier, seed, wall, violations, known_li
     n_ob = n_ok = 0
     solver_s = 0.0
     assumptions = set(reg.get("assumptions", []))
+    native = []
     for r in results:
         j = r.job
-        real = [p for p in r.props if p["kind"] != "canary"]
+        real = [p for p in r.props if p["kind"] not in ("canary", "exhaustive_native")]
         ok = [p for p in real if p["status"] == "SUCCESS"]
+        for p in r.props:
+            if p["kind"] == "exhaustive_native":
+                native.append({"job": r.name, "cases": getattr(r, "native_cases", 0), "status": p["status"],
+                               "space": j.get("bound", ""), "seconds": round(r.solver_s, 1)})
         route = j.get("route", "finite")
         routes[route] += len(real)
         routes_ok[route] += len(ok)
@@ -720,6 +772,8 @@ def write_evidence(prop_id, reg, results, tier, seed, wall, violations, known_li
         "solver_s": round(solver_s, 1),
         "jobs": per_job,
         "samples": samples,
+        "exhaustive_native": native,
+        "exhaustive_native_note": "complete native enumerations of a finite input space against the real code; reported separately, NOT counted among the deductive obligations",
         "known_findings_reported": known_lines,
         "undecided_jobs": [r.name for r in undecided],
         "explanation": reg.get("explanation", ""),
